@@ -99,17 +99,17 @@ def hasInfix (needle : Bytes) : Bytes → Bool
   | b :: t => needle.isPrefixOf (b :: t) || hasInfix needle t
 
 structure DiskCfg where
-  fileMode : Nat := 0o600
-  dirMode : Nat := 0o700
+  umask : Nat := 0o077        -- objectstore.umask (DEFAULT_UMASK)
 
 /-- every discrepancy between a directory dump and the model state (empty list = the directory is exactly what the model expects) -/
 def checkDisk (s : State) (cfg : DiskCfg) (ents : List DEntry) : List String := Id.run do
   let mut errs : List String := []
   -- permissions
   for e in ents do
-    if e.isDir then
-      if e.mode != cfg.dirMode then errs := errs ++ [s!"mode of directory {e.path} is {String.ofList (Nat.toDigits 8 e.mode)}"]
-    else if e.mode != cfg.fileMode then errs := errs ++ [s!"mode of file {e.path} is {String.ofList (Nat.toDigits 8 e.mode)}"]
+    -- C06: no permission bit outside the configured umask; files are never executable
+    if e.mode &&& cfg.umask != 0 then
+      errs := errs ++ [s!"mode of {e.path} is {String.ofList (Nat.toDigits 8 e.mode)}: bits inside objectstore.umask {String.ofList (Nat.toDigits 8 cfg.umask)}"]
+    if !e.isDir && e.mode &&& 0o111 != 0 then errs := errs ++ [s!"file {e.path} is executable ({String.ofList (Nat.toDigits 8 e.mode)})"]
   let dirs := ents.filter (·.isDir)
   let modelToks := s.slots.filterMap fun sl => sl.tok.map fun t => (sl.id, t)
   let mut seenSerials : List Bytes := []
